@@ -447,6 +447,10 @@ CHECKS["C37"] = {
     "units": [unit(CTRL_PKG, CTRL_FILES, "^Harness_C37_", QT, flags={"labels": "^(C37:|no-panic)", "max-decisions": 4000, "max-paths": 200000}, reach=["end"])],
 }
 
+CHECKS["C35"]["units"].append(py_unit("c35_writes", "c35-writes", []))
+CHECKS["C35"]["explanation"] += " Write half: the statements every write method of the real store emits are captured per configuration and compared with the default configuration's: apart from the INSERT into moves (emitted iff MOVES_HISTORY=ON) and InsertLog's advisory lock (taken iff HASH_LOGS=SYNC) they are the same text, so transactions, logs, volumes, accounts and metadata are written identically (what the configuration-dependent triggers add is C04 / C17 / C09)."
+CHECKS["C35"]["outside"] = "the 48-way cross product of feature values (one feature flipped at a time, plus minimal); the write half compares statement texts (decided by equality, not by the solver)"
+
 CHECKS["C14"] = {
     "level": "other",
     "explanation": "What the code contributes to reference uniqueness is (a) the definition of the unique index, resolved from the migration files on every run (create / drop / rename followed in order), (b) the value the real InsertTransaction writes for a transaction without reference (captured SQL, executed by the DML executor), (c) the constraint name the Go code turns into ErrTransactionReferenceConflict (read from transactions.go). z3 decides over every content of a symbolic transactions table that the resolved index admits: no two transactions of one ledger share a non-empty reference; the index forbids nothing more (equal references in two ledgers are admitted); a transaction without reference is never subject to the index; the mapped constraint name is that unique index. The rollback of the losing writer and the error seen by the caller are covered by C07 (operation create_ref_conflict on the store model).",
